@@ -455,3 +455,24 @@ def bigarr_profile(env):
     p.op("store", [AI, INT, INT], AI, lambda m, a, i, v: m.Store(a, i, v))
     p.op("storeb", [AB, B3, B3], AB, lambda m, a, i, v: m.Store(a, i, v))
     return p
+
+
+def arridx_profile(env):
+    """arrays whose index sort is itself a (finite) array sort: index literals that are different nodes but the same
+    array (K(T)[T:=F][F:=F] and K(F)) in stores and reads"""
+    p = Profile("arridx", env)
+    m = p.m
+    IX = ("Array", BOOL, BOOL)
+    AR = ("Array", IX, INT)
+    bt = mk_type(env, BOOL)
+    k1 = m.Array(bt, m.TRUE(), {m.TRUE(): m.FALSE(), m.FALSE(): m.FALSE()})
+    k2 = m.Array(bt, m.FALSE())
+    k3 = m.Array(bt, m.FALSE(), {m.TRUE(): m.TRUE()})
+    p.leaf(IX, k1, k2, k3, p.sym("K", IX))
+    p.leaf(AR, p.sym("R", AR))
+    p.leaf(INT, p.sym("x", INT), m.Int(7))
+    p.op("store", [AR, IX, INT], AR, lambda m, a, i, v: m.Store(a, i, v))
+    p.op("select", [AR, IX], INT, lambda m, a, i: m.Select(a, i))
+    p.op("eq", [INT, INT], BOOL, lambda m, a, b: m.Equals(a, b))
+    p.op("eqk", [IX, IX], BOOL, lambda m, a, b: m.Equals(a, b))
+    return p
